@@ -268,7 +268,10 @@ type c02Where struct {
 	labels map[string]string      // node: the labels Kubernetes sees (NodeClaim labels until registered)
 	nc     *pscheduling.NodeClaim // claim
 	taints []corev1.Taint
-	zones  map[string]bool // claim: zones an available compatible offering can launch in
+	// rawTaints: the taints the Node object carries right now (incl. ephemeral ones of a node that is still starting);
+	// nil = same as taints
+	rawTaints []corev1.Taint
+	zones     map[string]bool // claim: zones an available compatible offering can launch in
 }
 
 type c02Pod struct {
@@ -485,7 +488,14 @@ func execC02(s *c02Scenario, c *ev.Ctx) {
 		if n == nil {
 			continue
 		}
-		pods = append(pods, &c02Pod{pod: &p, where: &c02Where{kind: "node", name: n.Name, labels: n.Labels, taints: n.Spec.Taints}})
+		// the node as it will be once it has settled (the same view that decides which domains are eligible): a node that
+		// is still starting carries ephemeral taints that say nothing about where the workload ends up
+		labels, taints := n.Labels, n.Spec.Taints
+		if bn := b.Nodes[n.Name]; bn != nil && bn.Node != nil {
+			view, _ := b.existingNodeView(bn)
+			labels, taints = view.Labels, view.Spec.Taints
+		}
+		pods = append(pods, &c02Pod{pod: &p, where: &c02Where{kind: "node", name: n.Name, labels: labels, taints: taints, rawTaints: n.Spec.Taints}})
 	}
 	sort.Slice(pods, func(i, j int) bool { return pods[i].pod.Name < pods[j].pod.Name })
 
@@ -704,26 +714,59 @@ func execC02(s *c02Scenario, c *ev.Ctx) {
 			}
 			honorAffinity := tsc.NodeAffinityPolicy == nil || *tsc.NodeAffinityPolicy == corev1.NodeInclusionPolicyHonor
 			honorTaints := tsc.NodeTaintsPolicy != nil && *tsc.NodeTaintsPolicy == corev1.NodeInclusionPolicyHonor
-			included := func(wh *c02Where) bool {
+			// NodeClaims that hold a replica of this deployment certainly pass the replicas' own affinity and tolerations;
+			// other NodeClaims are judged by their taints (their labels are not settled yet: only "possible")
+			ownClaims := map[string]bool{}
+			for _, q := range pods {
+				if dq0, ok := s.Deploy[q.pod.Name]; q.placed && ok && q.where.kind == "claim" && dq0 == s.Deploy[p.pod.Name] {
+					ownClaims[q.where.name] = true
+				}
+			}
+			includedWith := func(wh *c02Where, taints []corev1.Taint) bool {
 				if wh.kind == "claim" {
-					return true // replicas were placed there, so the node passes their own affinity and tolerations
+					if ownClaims[wh.name] {
+						return true
+					}
+					if honorTaints {
+						if _, bad := ref.UntoleratedTaint(p.pod, taints); bad {
+							return false
+						}
+					}
+					return !honorAffinity || (len(p.pod.Spec.NodeSelector) == 0 && (p.pod.Spec.Affinity == nil || p.pod.Spec.Affinity.NodeAffinity == nil))
 				}
 				node := &corev1.Node{ObjectMeta: metav1.ObjectMeta{Name: wh.name, Labels: wh.labels}}
 				if honorAffinity && !ref.MatchesNodeAffinity(p.pod, node) {
 					return false
 				}
 				if honorTaints {
-					if _, bad := ref.UntoleratedTaint(p.pod, wh.taints); bad {
+					if _, bad := ref.UntoleratedTaint(p.pod, taints); bad {
 						return false
 					}
 				}
 				return true
+			}
+			// a node that is still starting carries ephemeral taints: whether it takes part under nodeTaintsPolicy Honor
+			// depends on when one looks (Karpenter counts with the Node's current taints, places with the settled ones).
+			// included = certainly takes part (now and once settled); possible = takes part in one of the two views
+			included := func(wh *c02Where) bool {
+				if !includedWith(wh, wh.taints) {
+					return false
+				}
+				return wh.rawTaints == nil || includedWith(wh, wh.rawTaints)
+			}
+			possible := func(wh *c02Where) bool {
+				return includedWith(wh, wh.taints) || (wh.rawTaints != nil && includedWith(wh, wh.rawTaints))
 			}
 			count := map[string]int{}    // lower bound per domain: pods whose domain is determined
 			floating := map[string]int{} // pods that may still land in the domain
 			eligible := map[string]bool{}
 			for _, q := range pods {
 				if !included(q.where) {
+					if possible(q.where) && c02Matches(tsc.LabelSelector, p.pod.Namespace, q.pod) {
+						for e := range q.where.domains(key) {
+							floating[e]++ // may or may not count
+						}
+					}
 					continue
 				}
 				dq := q.where.domains(key)
@@ -752,7 +795,7 @@ func execC02(s *c02Scenario, c *ev.Ctx) {
 					continue
 				}
 				view, _ := b.existingNodeView(bn)
-				wh := &c02Where{kind: "node", name: bn.Spec.Name, labels: view.Labels, taints: view.Spec.Taints}
+				wh := &c02Where{kind: "node", name: bn.Spec.Name, labels: view.Labels, taints: view.Spec.Taints, rawTaints: bn.Node.Spec.Taints}
 				if v, ok := view.Labels[key]; ok && included(wh) && bn.Node.Labels[key] == v {
 					eligible[v] = true
 				}
@@ -798,8 +841,8 @@ func execC02(s *c02Scenario, c *ev.Ctx) {
 			if skew := count[d] - upperMin; skew > int(tsc.MaxSkew) {
 				sig := "spread:" + shortKey(key) + ":max-skew-exceeded"
 				if honorTaints && softTaintPool && relaxedToleration[s.Deploy[p.pod.Name]] {
-					// relaxation changes the pod's tolerations, which are part of the group identity when taints are
-					// honored: the re-created group forgets the replicas placed earlier in the pass
+					// (fixed in 99b842d76) relaxation changed the pod's tolerations, which were part of the group identity
+					// when taints are honored: the re-created group forgot the replicas placed earlier in the pass
 					sig = "spread:max-skew-exceeded:group-recreated-after-relaxation"
 				}
 				c.Violate(sig, "%s: %d matching pods end up in %s=%s while another eligible domain holds at most %d (maxSkew %d, selector %s)", describe(p, key), count[d], shortKey(key), d, upperMin, tsc.MaxSkew, metav1.FormatLabelSelector(tsc.LabelSelector))
